@@ -202,8 +202,9 @@ def pass_arguments(ctx):
     from gen import pyconv
     from cvise.cvise import CVise
     from cvise.utils.error import CViseError, UnknownArgumentError
-    text = 'int a = (1 ? 2 : 3) + f(0x10, b);\nstruct S { int x; };\n'
-    for name in ('balanced', 'ints', 'special', 'ternary', 'peep', 'indent'):
+    texts = ['int a = (1 ? 2 : 3) + f(0x10, b);\nstruct S { int x; };\n',
+             'long z;\n(w ? y : z) + g(y);\n']        # nothing a pass could work on (no digit, no hex letter): the argument is still wrong
+    for name, text in [(n, t) for n in ('balanced', 'ints', 'special', 'ternary', 'peep', 'indent') for t in texts]:
         cls = CVise.pass_name_mapping[name]
         for arg in ['bogus-arg', None]:
             p = cls(arg, {'clang-format': '/bin/true'})
